@@ -13,6 +13,7 @@ void register_c14();
 void register_c12();
 void register_c19();
 void register_c15();
+void register_c17();
 void register_all_properties() {
   static bool done = false;
   if (done) return;
@@ -29,5 +30,6 @@ void register_all_properties() {
   register_c12();
   register_c19();
   register_c15();
+  register_c17();
 }
 }
